@@ -6,7 +6,7 @@ import framework as fw
 import frames
 from checks import c03, c04, c05, c08, c12, c14
 
-MODULE = ["LWV.Props.C15", "LWV.Props.C14Full", "LWV.Props.C14Parse"]
+MODULE = ["LWV.Props.C15", "LWV.Props.C14Full", "LWV.Props.C14Parse", "LWV.Props.C15Parse"]
 
 
 def scenarios(rnd, tier):
